@@ -56,6 +56,7 @@ type gen struct {
 	specStack     map[*ssa.Function]bool
 	absDivMod     bool
 	maxDepth      int
+	inQuant       int
 	excluded      []string
 	loopHavocAll  map[*ssa.BasicBlock]bool // loops whose body contains a havoc of the whole heap (from a first pass)
 	loopHavocSeen map[*ssa.BasicBlock]bool // discovered in this pass
@@ -144,6 +145,9 @@ func (g *gen) declFun(name, sig string) {
 
 // bind declares a fresh constant equal to term (keeps terms small; the unit of slicing).
 func (g *gen) bind(base, sort, term string) string {
+	if g.inQuant > 0 {
+		return term // under a quantifier the term may mention the bound variable: no top-level definition
+	}
 	n := g.declare(g.freshName(base), sort)
 	g.asserts = append(g.asserts, fmt.Sprintf("(assert (= %s %s))", n, term))
 	return n
@@ -489,25 +493,32 @@ func and(parts ...string) string {
 	return "(and " + strings.Join(ps, " ") + ")"
 }
 
-// udivmod: unsigned division/modulo by a non-constant. Precise by default; with absDivMod the operation is an
-// uninterpreted function constrained by instance axioms that are theorems of bvudiv/bvurem (DESIGN 2.4).
-func (g *gen) udivmod(div bool, w int, a, b string) string {
-	if !g.absDivMod {
-		if div {
-			return fmt.Sprintf("(bvudiv %s %s)", a, b)
-		}
-		return fmt.Sprintf("(bvurem %s %s)", a, b)
-	}
+// divmodAbs: division/modulo by a non-constant as uninterpreted functions constrained by instance axioms that are
+// theorems of bvudiv/bvurem (unsigned) resp. of bvsdiv/bvsrem for a non-negative dividend and positive divisor.
+func (g *gen) divmodAbs(div, signed bool, w int, a, b string) string {
 	srt := fmt.Sprintf("(_ BitVec %d)", w)
-	g.declFun(fmt.Sprintf("udiv%d", w), fmt.Sprintf("(%s %s) %s", srt, srt, srt))
-	g.declFun(fmt.Sprintf("umod%d", w), fmt.Sprintf("(%s %s) %s", srt, srt, srt))
-	d := fmt.Sprintf("(udiv%d %s %s)", w, a, b)
-	m := fmt.Sprintf("(umod%d %s %s)", w, a, b)
+	p := "u"
+	if signed {
+		p = "s"
+	}
+	dn, mn := fmt.Sprintf("%sdiv%d", p, w), fmt.Sprintf("%smod%d", p, w)
+	g.declFun(dn, fmt.Sprintf("(%s %s) %s", srt, srt, srt))
+	g.declFun(mn, fmt.Sprintf("(%s %s) %s", srt, srt, srt))
+	d := fmt.Sprintf("(%s %s %s)", dn, a, b)
+	m := fmt.Sprintf("(%s %s %s)", mn, a, b)
 	key := "divmod:" + d
 	if !g.specDefs[key] {
 		g.specDefs[key] = true
-		g.assume(fmt.Sprintf("(=> (not (= %s %s)) (and (bvult %s %s) (bvule %s %s) (=> (bvult %s %s) (and (= %s %s) (= %s %s))) (=> (and (bvule %s %s) (bvult (bvsub %s %s) %s)) (and (= %s (bvsub %s %s)) (= %s %s)))))",
-			b, bv(w, 0), m, b, d, a, a, b, m, a, d, bv(w, 0), b, a, a, b, b, m, a, b, d, bv(w, 1)))
+		lt, le := "bvult", "bvule"
+		guard := fmt.Sprintf("(not (= %s %s))", b, bv(w, 0))
+		if signed {
+			lt, le = "bvslt", "bvsle"
+			guard = fmt.Sprintf("(and (bvsle %s %s) (bvslt %s %s))", bv(w, 0), a, bv(w, 0), b)
+		}
+		g.assume(fmt.Sprintf("(=> %s (and (%s %s %s) (%s %s %s) (%s %s %s) (%s %s %s) (=> (%s %s %s) (and (= %s %s) (= %s %s))) (=> (and (%s %s %s) (%s (bvsub %s %s) %s)) (and (= %s (bvsub %s %s)) (= %s %s)))))",
+			guard, le, bv(w, 0), m, lt, m, b, le, bv(w, 0), d, le, d, a,
+			lt, a, b, m, a, d, bv(w, 0),
+			le, b, a, lt, a, b, b, m, a, b, d, bv(w, 1)))
 	}
 	if div {
 		return d
